@@ -184,9 +184,9 @@ EvalE(e, st) ==
     [] e.t = "bool" -> Ok(B(e.b), st)
     [] e.t = "par"  -> EvalE(e.e, st)
     [] e.t = "id"   ->
-         LET f == Find(st, e.n) IN
+         LET f == Find(st, e.id) IN
          IF f.found /\ f.v.t # "nil" THEN Ok(f.v, st)
-         ELSE IF e.n = "nil" THEN Ok(Nil, st)
+         ELSE IF e.id = "nil" THEN Ok(Nil, st)
          ELSE IF f.found THEN ErrNilBound(st)
          ELSE ErrUnk(st)
     [] e.t = "not"  ->
@@ -252,7 +252,9 @@ EvalE(e, st) ==
                     [] it.v.t = "iter" -> ForIter(e, it.v.xs, 1, <<>>, it.st)
                     [] it.v.t = "map"  -> ForMap(e, it.v.m, DOMAIN it.v.m, <<>>, it.st)
                     [] it.v.t = "nil"  -> R("ok", Nil, <<>>, it.st, FALSE, FALSE)
-                    [] OTHER           -> Err(it.st) IN
+                    [] it.v.t = "opq" /\ it.v.kind \in EmptyIterKinds -> ForIter(e, <<>>, 1, <<>>, it.st)
+                    [] it.v.t = "opq" /\ it.v.kind = "slice_str" -> ForIter(e, <<S(<<"a">>)>>, 1, <<>>, it.st)
+                    [] OTHER           -> Err(it.st) IN                           \* not iterable
          IF r.k # "ok" THEN [r EXCEPT !.st = Pop(r.st)]
          ELSE IF it.v.t = "nil" THEN Ok(Nil, Pop(r.st))
          ELSE Ok(r.v, Pop(r.st))
